@@ -4,11 +4,15 @@
   variable is written `$name`
 * `autoCliBaseDests` — the dests of the parser `auto_cli` has built just before the component's arguments are added
   (`parser_class(default_meta=False)` + `add_argument("--config", action=ActionConfigFile)`), read from a live parser
+* `enablePathExpr`, `autoCliSubConfigs`, `enablePathByType` — the expression that decides `enable_path` of a signature
+  parameter (ast), the `sub_configs` value auto_cli passes, and a live table annotation -> enable_path of the action
 * `methodConfigGuard` — the parameter name tested by `has_parameter(method_object, ...)` before a method's subparser gets `--config`
 """
 from __future__ import annotations
 
 import ast
+import contextlib
+import io
 import os
 
 from ..extract import lean_str, lean_str_list, write_if_changed
@@ -44,7 +48,84 @@ def generate(problems):
     parser = ArgumentParser(default_meta=False)
     parser.add_argument("--config", action=ActionConfigFile)
     dests = [a.dest for a in parser._actions]
+    # --- enable_path of signature parameters -------------------------------------------------------------------
+    sig_src = open(os.path.join(REPO, "jsonargparse", "_signatures.py")).read()
+    sig_tree = ast.parse(sig_src)
+    fn2 = [n for n in ast.walk(sig_tree) if isinstance(n, ast.FunctionDef) and n.name == "_add_signature_parameter"]
+    ep_exprs = []
+    if not fn2:
+        problems.append("CliTables: _signatures._add_signature_parameter not found")
+    else:
+        for n in ast.walk(fn2[0]):
+            if isinstance(n, ast.Assign) and len(n.targets) == 1 and isinstance(n.targets[0], ast.Name) and n.targets[0].id == "enable_path":
+                ep_exprs.append(ast.unparse(n.value))
+        if len(ep_exprs) != 1:
+            problems.append("CliTables: expected one assignment to enable_path in _add_signature_parameter, found %d" % len(ep_exprs))
+    # sub_configs as auto_cli passes it (the kwargs dict of _add_component_to_parser)
+    sub_cfg = []
+    for n in ast.walk(tree):
+        if isinstance(n, ast.keyword) and n.arg == "sub_configs" and isinstance(n.value, ast.Constant):
+            sub_cfg.append(bool(n.value.value))
+    # live: which required positional / defaulted parameters of auto_cli end up with enable_path, by annotation
+    import enum
+    import typing
+
+    from jsonargparse import auto_cli
+    from jsonargparse._typehints import ActionTypeHint
+
+    class _Color(enum.Enum):
+        red = 1
+
+    class _Base:
+        def __init__(self, a: int = 1):
+            pass
+
+    anns = [("int", int), ("str", str), ("float", float), ("bool", bool), ("Optional[int]", typing.Optional[int]), ("List[int]", typing.List[int]),
+            ("Literal", typing.Literal["u", "v"]), ("Enum", _Color), ("Union[int, str]", typing.Union[int, str]), ("Any", typing.Any),
+            ("Union[str, List[str]]", typing.Union[str, typing.List[str]]), ("Class", _Base), ("Optional[Class]", typing.Optional[_Base]),
+            ("Callable[[int], Class]", typing.Callable[[int], _Base])]
+    rows = []
+    for label, ann in anns:
+        if ann in (str, int, float, bool):
+            tyclass = "fastPath"
+        elif ActionTypeHint.is_subclass_typehint(ann, all_subtypes=False):
+            tyclass = "subclass"
+        elif ActionTypeHint.is_return_subclass_typehint(ann):
+            tyclass = "returnsSubclass"
+        else:
+            tyclass = "other"
+        flags = []
+        for required in (True, False):
+            made = []
+
+            class _Rec(ArgumentParser):
+                def __init__(self, *a, **k):
+                    super().__init__(*a, **k)
+                    made.append(self)
+
+            def f(x):
+                return x
+
+            f.__annotations__ = {"x": ann}
+            if not required:
+                f.__defaults__ = (None,)
+            try:
+                with contextlib.redirect_stdout(io.StringIO()), contextlib.redirect_stderr(io.StringIO()):
+                    auto_cli(f, args=["--help"], parser_class=_Rec)
+            except SystemExit:
+                pass
+            except Exception as ex:  # noqa: BLE001
+                problems.append("CliTables: auto_cli could not build a parser for %s: %r" % (label, ex))
+                continue
+            acts = [a for a in made[0]._actions if a.dest == "x"]
+            flags.append(bool(getattr(acts[0], "_enable_path", False)) if acts else False)
+        rows.append((label, tyclass, flags[0] if flags else False, flags[1] if len(flags) > 1 else False))
     body = "namespace Jap.Gen\n"
+    body += "def enablePathExpr : List String := %s\n" % lean_str_list(ep_exprs)
+    body += "def autoCliSubConfigs : List Bool := [%s]\n" % ", ".join("true" if b else "false" for b in sub_cfg)
+    body += "/-- (annotation, how _add_signature_parameter classifies it, enable_path of a required positional, of a defaulted option) -/\n"
+    body += "def enablePathByType : List (String × String × Bool × Bool) := [%s]\n" % ", ".join(
+        "(%s, %s, %s, %s)" % (lean_str(a), lean_str(b), "true" if c else "false", "true" if d else "false") for a, b, c, d in rows)
     body += "def runComponentPops : List (String × String) := [%s]\n" % ", ".join("(%s, %s)" % (lean_str(a), lean_str(b)) for a, b in pops)
     body += "def autoCliBaseDests : List String := %s\n" % lean_str_list(dests)
     body += "def methodConfigGuard : List String := %s\n" % lean_str_list(guard)
